@@ -336,10 +336,27 @@ def sysDiskAfterRecovery (s : Sys) : Disk := applyFlushes (sysDurable s) (recove
 def sysMetaAfterRecovery (s : Sys) : List MetaEntry := s.metaFile ++ s.metaWal
 
 /-- .mnm files after RecoverMNameWALData: (shard, seg, names); the recovered file of the open segment holds
-the names of the completed name-WAL blocks (first occurrence order is not observable: a Go map) -/
+the names of the completed name-WAL blocks (first occurrence order is not observable: a Go map).
+As coded, FlushMetricNames does not create the segment directory: the recovered names are written only if the
+directory exists, i.e. if some block of that segment is on disk (rotated, or just flushed by RecoverWALData, which
+runs first); otherwise they are dropped (and the name WAL is deleted all the same). -/
 def sysNamesAfterRecovery (s : Sys) : List (Nat × Nat × List Nat) :=
+  let disk := sysDiskAfterRecovery s
   s.shards.flatMap (fun st =>
     st.mnm.map (fun (seg, ns) => (st.shard, seg, ns))
-      ++ (if st.nameWal.flatten.isEmpty then [] else [(st.shard, st.seg, st.nameWal.flatten)]))
+      ++ (if st.nameWal.flatten.isEmpty || !(disk.any (fun kv => kv.1.1 == dec st.shard && kv.1.2.1 == st.seg)) then []
+          else [(st.shard, st.seg, st.nameWal.flatten)]))
+
+end SigModel.WalRecover
+
+namespace SigModel.WalRecover
+
+/-- several datapoints of ONE metric name ingested in a row while the WAL buffer has room for all of them
+(`st.buf.length + ds.length ≤ cap`, `ds ≠ []`): equal to folding `step` over them (Lemmas/C10Rb.lean,
+`ingestMany_eq_foldl`); used by the Oracle for the generated bulk loads only, to avoid quadratic list appends. -/
+def ingestMany (name : Nat) (ds : List Wal.Dp) (st : WState) : WState :=
+  let st0 := if st.mNames.contains name then st
+             else { st with mNames := st.mNames ++ [name], pendNames := st.pendNames ++ [name] }
+  { st0 with cur := st0.cur ++ ds, buf := st0.buf ++ ds, segHasData := true, dpCount := st0.dpCount + ds.length }
 
 end SigModel.WalRecover
